@@ -221,6 +221,23 @@ class CFG:
             return True  # a cannot reach the normal exit
         return b.id in self._pdom[a.id]
 
+    def loop_top(self, a_ast, b_ast=None):
+        """CFG node of the outermost loop statement enclosing `a_ast` that does not
+        enclose `b_ast` (or of a_ast's own statement when there is no such loop)."""
+        top = None
+        cur = getattr(a_ast, "_parent", None)
+        while cur is not None and cur is not self.fn:
+            if isinstance(cur, (ast.For, ast.While)):
+                if b_ast is not None and _within(b_ast, cur):
+                    break
+                top = cur
+            cur = getattr(cur, "_parent", None)
+        return self.by_ast[id(top)] if top is not None else self.node_of(a_ast)
+
+    def dominates_stmt(self, a_ast, b_ast):
+        """`a` (or the loop in which it runs for every element) dominates `b`."""
+        return self.dominates(self.loop_top(a_ast, b_ast), self.node_of(b_ast))
+
     def reachable(self, a, b, avoid=()):
         avoid = {x.id for x in avoid}
         seen = set()
